@@ -8,7 +8,7 @@ ids = [p['id'] for p in props]
 
 NOTE_COMMON = ('Trusted: Coq 8.16.1 kernel incl. vm_compute (no native_compute); no axioms (Print Assumptions re-run on every check); '
                'hand-written Gallina model tied to /repo by extraction (ExtrOcamlBasic only) + differential correspondence on every run; '
-               'generated tables re-translated from /repo by tools/gen on every run. See DESIGN.md section 4.')
+               'generated tables and translated source (tools/gen: data files, python-ast call sites / set sites / raise sites, evaluator and check_args methods) re-derived from /repo on every run; the translators are trusted. See DESIGN.md section 4 and 10.')
 
 CHECKS = {
     'C05': dict(
@@ -16,9 +16,9 @@ CHECKS = {
         text='Coq theorem by structural induction over the expression grammar, for every modulus M >= 1 (hence every width): '
              'bounds returned by the model of CodomainEvaluator enclose every successful evaluation, None implies failure everywhere, '
              'no assert can fire. The model is tied to lib/intexpr.py by differential correspondence (small-scope exhaustive + random '
-             'expressions) and the property itself is brute-forced on the real code for widths <= 6/8.',
+             'expressions) and the property itself is brute-forced on the real code for widths <= 6/8. Source tie: the methods of the class are translated from the working tree by a fail-closed python-ast -> Gallina translator on every run and proved equal to the model (C05_source_tie_*), so an edit of the evaluator code un-checks the theorems until model and proofs follow; constructors, the getattr dispatch and gcd are pinned by digest.',
         design_ref='DESIGN.md 5 / C05',
-        technique='Coq proof (induction on expr, lia/nia) + extracted-model correspondence + brute-force oracle',
+        technique='Coq proof (induction on expr, lia/nia) + extracted-model correspondence + brute-force oracle + source translation (python ast -> Gallina) proved equal to the model',
         note=NOTE_COMMON),
     'C04': dict(
         category='proof',
@@ -28,17 +28,17 @@ CHECKS = {
              'sound AND complete for the stratified plural.y grammar (accepts iff a derivation exists, builds the unique tree, rejects with the own '
              'syntax error exactly otherwise), its fuel never runs out and it raises nothing foreign; hence a string is accepted iff it is in the '
              'plural language (terminator characters rejected). Tied to lib/intexpr.py by three-way comparison (model / real rply parser / independent '
-             'plural.y reference) on all token sequences of length <= 4 (quick) / 5 (thorough) plus random and deep families.',
+             'plural.y reference) on all token sequences of length <= 4 (quick) / 5 (thorough) plus random and deep families. Source tie: the methods of the class are translated from the working tree by a fail-closed python-ast -> Gallina translator on every run and proved equal to the model (C04_source_tie_*), so an edit of the evaluator code un-checks the theorems until model and proofs follow; constructors, the getattr dispatch and gcd are pinned by digest.',
         design_ref='DESIGN.md 5 / C04; notes/C04.md',
-        technique='Coq proof (induction on expr; mutual operational grammar + fuel measure for the parser; case analysis over code points for the lexer) + extracted-model correspondence + independent reference parser/evaluator',
+        technique='Coq proof (induction on expr; mutual operational grammar + fuel measure for the parser; case analysis over code points for the lexer) + extracted-model correspondence + independent reference parser/evaluator + source translation (python ast -> Gallina) proved equal to the model',
         note=NOTE_COMMON + ' rply\'s LALR table construction is modelled, not verified; NUMBER is unbounded in the spec (C wrap of constants >= 2^32 is outside InRange anyway). Known finding D12 (RecursionError on expressions nested >= 300 deep).'),
     'C06': dict(
         category='proof',
         text='Coq theorem by structural induction over the expression grammar, for every modulus M: a returned (O, P) satisfies 1 <= P, 0 <= O and '
              'the outcome (same value, or failure at both) at n and n+P agrees for all O <= n, n+P < M; plus the multiples and image-in-window corollaries. '
-             'Tied to lib/intexpr.py PeriodEvaluator by correspondence; property brute-forced on the real code for widths <= 6/8.',
+             'Tied to lib/intexpr.py PeriodEvaluator by correspondence; property brute-forced on the real code for widths <= 6/8. Source tie: the methods of the class are translated from the working tree by a fail-closed python-ast -> Gallina translator on every run and proved equal to the model (C06_source_tie_*), so an edit of the evaluator code un-checks the theorems until model and proofs follow; constructors, the getattr dispatch and gcd are pinned by digest.',
         design_ref='DESIGN.md 5 / C06',
-        technique='Coq proof (induction on expr, gcd/lcm divisibility) + extracted-model correspondence + brute-force oracle',
+        technique='Coq proof (induction on expr, gcd/lcm divisibility) + extracted-model correspondence + brute-force oracle + source translation (python ast -> Gallina) proved equal to the model',
         note=NOTE_COMMON + ' Known finding D12.'),
     'C07': dict(
         category='proof',
@@ -68,9 +68,9 @@ CHECKS = {
              'diagnostics are emitted iff the two signatures differ in exactly that way (count, type per position or key, key sets), equal signatures are '
              'never flagged, and in check_message dropping one integer argument is tolerated only when the form\'s window preimage restricted by the range flag '
              'is empty, a single n, or 0 and one other n; fuzzy messages and catalogs without charset are exempt. The signatures themselves come from the parsers '
-             '(C11-C13). Tied to the code by correspondence of the real check_args / check_message (recorded invocations) and an independent flagged-iff-differs oracle.',
+             '(C11-C13). Tied to the code by correspondence of the real check_args / check_message (recorded invocations) and an independent flagged-iff-differs oracle. Source tie: the four check_args methods and check_message from `if flags.fuzzy:` onwards are translated from the working tree (python ast -> Gallina, fail-closed subset) on every run and proved equal to the model (C14_source_tie_*).',
         design_ref='DESIGN.md 5 / C14',
-        technique='Coq proof (list reasoning over signatures) + extracted-model correspondence + independent signature-comparison oracle',
+        technique='Coq proof (list reasoning over signatures) + extracted-model correspondence + independent signature-comparison oracle + source translation (python ast -> Gallina) proved equal to the model',
         note=NOTE_COMMON + ' D2 fixed by commit ebe368d.'),
     'C03': dict(
         category='other',
@@ -108,7 +108,7 @@ CHECKS = {
              'declared tables, inside the file, followed by NUL); every table word and string read lies inside the file; each malformation named by the property '
              '(bad magic, major > 1, truncated header, table or string past EOF, missing terminator, bad NUL structure, decreasing keys) is rejected with the MO syntax '
              'error; rejected files produce invalid-mo-file only. Tied by fault enumeration (every truncation point, every header/table word x boundary values, '
-             'terminator flips, random bytes) against the model and an independent reference reader.',
+             'terminator flips, random bytes) against the model and an independent reference reader. The glue of Checker.check is modelled with the loader as an oracle: a syntax error on the last attempt gives exactly invalid-mo-file (+ broken-encoding iff the first attempt failed to decode) and returns before the sub-checks (C09_glue_*).',
         design_ref='DESIGN.md 5 / C09; notes/C09.md',
         technique='Coq proof (totality + soundness w.r.t. the gmo.h relation) + fault-enumeration correspondence + independent reference reader',
         note=NOTE_COMMON + ' Known finding D11 (charset=idna: UnicodeError escapes).'),
@@ -210,7 +210,7 @@ CHECKS = {
              'header, message, date, language and charset-proposal models), re-exported in Props/C01.v so that C01 stops checking when any of them does. Explored on the real CLI, not proved: '
              'exit status 0, empty stderr, line grammar and a time cap for generated files of every kind (hostile catalogs, every component\'s malformed stream in the slot that reaches it, '
              'escape spellings, duplicate header fields, every odd codec name, byte noise, mutated files, MO truncations and word corruptions) under -l / --file-type / -j, and at most quadratic '
-             'growth on 28 pumped families.',
+             'growth on 28 pumped families. The orchestration Checker.check() is modelled with the loaders and os.stat as oracles and proved: which exceptions can leave it (iff), dispatch on extension / --file-type, constructor calls, ctx flags, the order of the nine sub-checks, broken-encoding once and last, the arguments of syntax-error-in-po-file and that their safestr parts are [a-z0-9 :] only (27 theorems C01_glue_*); tied by scripted-oracle correspondence through the real method with stubbed loaders.',
         design_ref='DESIGN.md 5 / C01',
         technique='Coq proof (aggregate of component totality theorems) + CLI fuzz with timing',
         note=NOTE_COMMON + ' Recursion limit, regex cost, memory and the exit status are runtime behaviour no model here exhibits. Known findings D11, D12, D14.'),
